@@ -36,18 +36,19 @@ func Do(
 		return
 	}
 
-	x := int32(-1)
+	// 64 bits: every worker draws one index past n, and n itself may be anything up to MaxInt.
+	x := int64(-1)
 	var wg sync.WaitGroup
 	wg.Add(parallelism)
 	for j := 0; j < parallelism; j++ {
 		go func() {
 			defer wg.Done()
 			for {
-				i := int(atomic.AddInt32(&x, 1))
-				if i >= n {
+				i := atomic.AddInt64(&x, 1)
+				if i >= int64(n) {
 					return
 				}
-				f(i)
+				f(int(i))
 			}
 		}()
 	}
@@ -86,15 +87,17 @@ func DoContext(
 		return nil
 	}
 
-	x := int32(-1)
+	// 64 bits: every worker draws one index past n, and n itself may be anything up to MaxInt.
+	x := int64(-1)
 	eg, ctx := errgroup.WithContext(ctx)
 	for j := 0; j < parallelism; j++ {
 		eg.Go(func() error {
 			for {
-				i := int(atomic.AddInt32(&x, 1))
-				if i >= n {
+				i64 := atomic.AddInt64(&x, 1)
+				if i64 >= int64(n) {
 					return nil
 				}
+				i := int(i64)
 
 				if ctx.Err() != nil {
 					return ctx.Err()
